@@ -23,8 +23,8 @@ Weight == 2
 MaxStep == 5000
 ExcludedCap == 600000
 MaxExcludedStep == 10000
-\* immediate re-sends are legitimate while they are bounded: at most 10 attempts per replica plus the extra chances
-MaxAttemptsWithoutBackoff == 45
+\* immediate re-sends are legitimate while they are bounded: three replicas, each at most 10 attempts plus at most 10 extra chances (since 6638d57)
+MaxAttemptsWithoutBackoff == 64
 \* replies after which the code backs off before it may use the same store again (send failures, busy / not-ready style region errors)
 BackoffBeforeSameStore == {"rpc_error", "deadline", "disk_full", "max_ts_not_synced", "proposal_in_merge", "read_index_not_ready", "region_not_initialized",
                            "server_busy", "server_busy_wait"}
